@@ -286,6 +286,13 @@ POOL_TEXTS = [
     ("run-file", "from .pkgd usepulses *\nregister q[2]\nsubcircuit { XD q[1] 1.0 }\n"),
     ("run-file", "from .moda usepulses *\nregister q[2]\nXA q[1]\n"),
     ("run", "from .pkgc usepulses *\nregister q[2]\nsubcircuit { XC q[0] }\n"),
+    ("parse-inj", "register q[2]\nmacro flip a { XA a }\nflip q[0]\n"),
+    ("parse-inj", "register q[2]\nflip q[0]\n"),
+    ("parse-inj", "register q[2]\nmacro pair a { XA a }\npair q[0]\n"),
+    ("parse-inj", "register q[2]\nmacro pair a b { XA a; XA b }\npair q[0]\n"),
+    ("parse-inj", "register q[2]\nmacro flip a { GP a }\nflip q[0]\n"),
+    ("parse", "register q[2]\nmacro flip a { XA a }\nflip q[0]\n"),
+    ("parse", "register q[2]\nmacro flip a b { XA a }\nflip q[0]\n"),
     ("parse-inj", "register q[2]\nXA q[0]\nGP q[1]\n"),
     ("parse-inj", "register q[2]\nXA q[0] q[1]\n"),
     ("parse-inj", "register q[2]\nNoSuch q[0]\n"),
